@@ -6,9 +6,9 @@ open Node
     expression that reads the same place back and erases to `eo` (under the bindings `tk` made) -/
 def PairEr (cx : Cx) (lo hi : Nat) (e eo tk ok : Node) (s s1 : St) : Prop :=
   s.counter ≤ s1.counter ∧
-  ∀ tk'', BRg tk tk'' → ∀ σ, cx.ext σ → ∃ T Δt, erase σ tk'' = (T, Δt ++ σ) ∧ Sim T e ∧ WinU lo hi s.counter s1.counter Δt ∧
+  ∀ tk'', BRg tk tk'' → ∀ σ, cx.ext σ → ∃ T Δt, erase σ tk'' = (T, Δt ++ σ) ∧ ESim T e ∧ WinU lo hi s.counter s1.counter Δt ∧
     ∀ ok'', BRg ok ok'' → ∀ Δ2, Avoid s.counter s1.counter Δ2 → AvoidP cx.bad Δ2 →
-      ∃ O Δo, erase (Δ2 ++ (Δt ++ σ)) ok'' = (O, Δo ++ (Δ2 ++ (Δt ++ σ))) ∧ Sim O eo ∧ Win lo hi Δo
+      ∃ O Δo, erase (Δ2 ++ (Δt ++ σ)) ok'' = (O, Δo ++ (Δ2 ++ (Δt ++ σ))) ∧ ESim O eo ∧ Win lo hi Δo
 
 theorem pairEr_same {cx : Cx} {lo hi : Nat} {e' e : Node} (s : St) (hw : HypW cx hi s) (hE : Er cx lo hi e' e) :
     PairEr cx lo hi e e e' e' s s := by
@@ -69,7 +69,7 @@ theorem hoistTargetPart_Er (cx : Cx) (lo hi : Nat) (e' e : Node) (sp : Span) (s 
       · subst hp; right; dsimp only; omega
       · exact Or.inl (wX p hp)
     · intro ok'' hok Δ2 hav _
-      rw [BRg_noBlk (noBlk_tempIdent _) hok]
+      rw [BRg_noBlk (noBlk_tempIdentE _) hok]
       refine ⟨X, [], ?_, sX, Win.nil _ _⟩
       simp only [tempIdent, erase_temp, List.nil_append]
       rw [Env.get_append_of_notin _ _ _ (by intro p hp; have := hav p hp; omega)]
@@ -82,7 +82,7 @@ theorem noSp_other (k : String) (sp : Span) (ns : List String) (vs : List Node) 
 /-- two parts handled one after the other, put back under a two-child node `W` -/
 theorem pairEr_two {cx : Cx} {lo hi : Nat} (W : Node → Node → Node)
     (hW : ∀ σ a b, erase σ (W a b) = (W (erase σ a).1 (erase (erase σ a).2 b).1, (erase (erase σ a).2 b).2))
-    (hS : ∀ A B a b, Sim A a → Sim B b → Sim (W A B) (W a b))
+    (hS : ∀ A B a b, ESim A a → ESim B b → ESim (W A B) (W a b))
     (hWi : ∀ a b m, BRg (W a b) m → ∃ a'' b'', m = W a'' b'' ∧ BRg a a'' ∧ BRg b b'')
     {a ao b bo ta oa tb ob : Node} {s s1 s2 : St} (hw : HypW cx hi s)
     (h1 : PairEr cx lo hi a ao ta oa s s1) (h2 : PairEr cx lo hi b bo tb ob s1 s2) :
@@ -138,7 +138,7 @@ theorem hW_member (msp : Span) : ∀ σ a b, erase σ (Node.member a b msp) =
     (Node.member (erase σ a).1 (erase (erase σ a).2 b).1 msp, (erase (erase σ a).2 b).2) := by
   intro σ a b; simp only [erase]
 
-theorem hS_member (msp : Span) : ∀ A B a b, Sim A a → Sim B b → Sim (Node.member A B msp) (Node.member a b msp) := by
+theorem hS_member (msp : Span) : ∀ A B a b, ESim A a → ESim B b → ESim (Node.member A B msp) (Node.member a b msp) := by
   intro A B a b h1 h2
   exact ⟨by simp only [strip, h1.1, h2.1], Or.inl rfl, noSp_member _ _ _⟩
 
@@ -146,8 +146,8 @@ theorem hW_other2 (k : String) (sp : Span) (ns : List String) : ∀ σ a b, eras
     (Node.other k sp ns [(erase σ a).1, (erase (erase σ a).2 b).1], (erase (erase σ a).2 b).2) := by
   intro σ a b; simp only [erase, eraseL]
 
-theorem hS_other2 (k : String) (sp : Span) (ns : List String) : ∀ A B a b, Sim A a → Sim B b →
-    Sim (Node.other k sp ns [A, B]) (Node.other k sp ns [a, b]) := by
+theorem hS_other2 (k : String) (sp : Span) (ns : List String) : ∀ A B a b, ESim A a → ESim B b →
+    ESim (Node.other k sp ns [A, B]) (Node.other k sp ns [a, b]) := by
   intro A B a b h1 h2
   exact ⟨by simp only [strip, stripL, h1.1, h2.1], Or.inl rfl, noSp_other _ _ _ _⟩
 
